@@ -455,8 +455,7 @@ def r02c(ctx):
                 swaps.append(t1 is not None and t2 is not None and t1 != t2)
     okw = False
     identity_by_assign = False
-    if len(writes) == 2 and not swaps:
-        w1, w2 = writes
+    def swap_pair(w1, w2):
         i1 = eval_at(a, index_expr(w1['a'][0])[1], w1['l'])
         i2 = eval_at(a, index_expr(w2['a'][0])[1], w2['l'])
         r1 = index_expr(w1['a'][1])
@@ -473,7 +472,10 @@ def r02c(ctx):
                             ii = index_expr(v['init'])
                             if ii and eval_at(a, ii[1], e['l']) == i1:
                                 saved_ok = True
-        okw = (i1 is not None and i2 is not None and src1 == i2 and saved_ok and i1 != i2)
+        return i1 is not None and i2 is not None and src1 == i2 and saved_ok and i1 != i2
+    if writes and len(writes) % 2 == 0 and not swaps:
+        # one three-statement exchange per generation strategy (a function may have several, selected by the size)
+        okw = all(swap_pair(writes[k], writes[k + 1]) for k in range(0, len(writes), 2))
     elif swaps and all(swaps):
         # std::swap(pi[i], pi[rnd]); any direct cell write besides it must be the identity fill pi[i] = i
         rest_ok = True
